@@ -236,3 +236,37 @@ MUTANTS += [
  dict(id="C06-scrape-reversed", props=["C06"], expect={"C06": r"scrape#order"},
       edits=[(US+"swarm.rs", "        for info_hash in request.info_hashes {\n            let torrent_map_shard = self.get_shard(&info_hash);", "        for info_hash in request.info_hashes.into_iter().rev() {\n            let torrent_map_shard = self.get_shard(&info_hash);")]),
 ]
+
+HC = "crates/http/src/workers/socket/"
+MUTANTS += [
+ dict(id="C03-udp-use-request-ip-when-nonzero", props=["C03"], expect={"C03": r"taint#udp#ip_address_unread|chain#udp#(map_key|ip_address)"},
+      edits=[(US+"swarm.rs", """            IpAddr::V4(ip_address) => Response::AnnounceIpv4(self.ipv4.announce(
+                config,
+                statistics_sender,
+                rng,
+                request,
+                ip_address.into(),""", """            IpAddr::V4(ip_address) => Response::AnnounceIpv4(self.ipv4.announce(
+                config,
+                statistics_sender,
+                rng,
+                request,
+                if request.ip_address.0 != [0; 4] { request.ip_address } else { ip_address.into() },""")]),
+ dict(id="C03-mapped-pattern-fffe", props=["C03"], expect={"C03": r"table#CanonicalSocketAddr::new"},
+      edits=[(CM+"lib.rs", "[0, 0, 0, 0, 0, 0, 0, 0, 0, 0, 0xff, 0xff, a, b, c, d] => Self(SocketAddr::V4(", "[0, 0, 0, 0, 0, 0, 0, 0, 0, 0, 0xff, 0xfe, a, b, c, d] => Self(SocketAddr::V4(")]),
+ dict(id="C03-ws-mapped-is-v6", props=["C03"], expect={"C03": r"table#IpVersion::canonical_from_ip"},
+      edits=[("crates/ws/src/common.rs", "[0, 0, 0, 0, 0, 0, 0, 0, 0, 0, 0xff, 0xff, _, _, _, _] => Self::V4,", "[0, 0, 0, 0, 0, 0, 0, 0, 0, 0, 0xff, 0xff, 0, _, _, _] => Self::V4,")]),
+ dict(id="C03-http-first-header-occurrence", props=["C03"], expect={"C03": r"forwarded#last_occurrence"},
+      edits=[(HC+"request.rs", "    for header in headers.iter().rev() {", "    for header in headers.iter() {")]),
+ dict(id="C03-http-first-address-in-header", props=["C03"], expect={"C03": r"forwarded#last_address"},
+      edits=[(HC+"request.rs", "                        .split(',')\n                        .last()", "                        .split(',')\n                        .next()")]),
+ dict(id="C03-http-behind-proxy-uses-tcp-peer", props=["C03"], expect={"C03": r"chain#http#proxy_switch"},
+      edits=[(HC+"connection.rs", "    let opt_peer_addr = if config.network.runs_behind_reverse_proxy {\n        None\n    } else {", "    let opt_peer_addr = if config.network.runs_behind_reverse_proxy && config.network.keep_alive {\n        None\n    } else {")]),
+ dict(id="C03-udp-scrape-family-by-raw-v6", props=["C03"], expect={"C03": r"family#udp#scrape"},
+      edits=[(US+"swarm.rs", "        if src.is_ipv4() {\n            self.ipv4.scrape(request)", "        if src.get_ipv6_mapped().is_ipv4() {\n            self.ipv4.scrape(request)")]),
+ dict(id="C03-uring-skip-canonicalisation", props=["C03"], expect={"C03": r"chain#udp#uring_name#V6|ctor"},
+      edits=[(UR+"recv_helper.rs", """        let addr = SocketAddr::V6(SocketAddrV6::new(
+            Ipv6Addr::from(name_data.sin6_addr.s6_addr),
+            u16::from_be(name_data.sin6_port),""", """        let addr = SocketAddr::V6(SocketAddrV6::new(
+            Ipv6Addr::from(name_data.sin6_addr.s6_addr),
+            u16::from_le(name_data.sin6_port),""")]),
+]
